@@ -21,6 +21,8 @@ EXPLANATION = ('Rules TAB-OPC (256), LW-SIB/SPLIT-SIB (30 handlers), RCP-NOOP, C
          ' X86-FP-HSEM.'
          ' X86-CBR-HSEM.')
 
+EXPLANATION += ' CG-SIZE-X86.'
+
 
 def run(ctx, R):
     FI = astq.Facts(ctx, 'K0')
